@@ -29,6 +29,13 @@ from histogrammar.primitives.count import Count
 from histogrammar.util import basestring, floatToJson, hasKeys, inheritdoc, numeq
 
 
+def _bearsQuantity(container):
+    """True if some node of this subtree evaluates a quantity on the data (and thereby learns the batch length)."""
+    if getattr(container, "quantity", None) is not None:
+        return True
+    return any(_bearsQuantity(child) for child in container.children)
+
+
 class Collection:
     pass
 
@@ -216,7 +223,7 @@ class Label(Factory, Container, Collection):
 
         # quantity-bearing children first: they establish the batch length that a bare Count
         # needs to turn a scalar weight into the right total
-        for x in sorted(self.values, key=lambda v: isinstance(v, Count)):
+        for x in sorted(self.values, key=lambda v: not _bearsQuantity(v)):
             x._numpy(data, weights, shape)
 
         # no possibility of exception from here on out (for rollback)
@@ -452,7 +459,7 @@ class UntypedLabel(Factory, Container, Collection):
 
         # quantity-bearing children first: they establish the batch length that a bare Count
         # needs to turn a scalar weight into the right total
-        for x in sorted(self.values, key=lambda v: isinstance(v, Count)):
+        for x in sorted(self.values, key=lambda v: not _bearsQuantity(v)):
             x._numpy(data, weights, shape)
 
         # no possibility of exception from here on out (for rollback)
@@ -688,7 +695,7 @@ class Index(Factory, Container, Collection):
 
         # quantity-bearing children first: they establish the batch length that a bare Count
         # needs to turn a scalar weight into the right total
-        for x in sorted(self.values, key=lambda v: isinstance(v, Count)):
+        for x in sorted(self.values, key=lambda v: not _bearsQuantity(v)):
             x._numpy(data, weights, shape)
 
         # no possibility of exception from here on out (for rollback)
@@ -932,7 +939,7 @@ class Branch(Factory, Container, Collection):
 
         # quantity-bearing children first: they establish the batch length that a bare Count
         # needs to turn a scalar weight into the right total
-        for x in sorted(self.values, key=lambda v: isinstance(v, Count)):
+        for x in sorted(self.values, key=lambda v: not _bearsQuantity(v)):
             x._numpy(data, weights, shape)
 
         # no possibility of exception from here on out (for rollback)
